@@ -50,11 +50,16 @@ RANDOM_CROP_CALL = dict(
              "ctx['random_crop']['h'] == geo_c and ctx['random_crop']['w'] == geo_d)"],
 )
 
+# exact sizes of the padded image, computed by hand from the configuration: explicit padding first, then - judged on the PADDED size -
+# the deficit added on both sides (so that the recorded crop box refers to the image a user obtains by padding by hand)
+_P = "(0 if self.padding is None else val(self.padding))"
+_W1, _H1 = f"(old(Width(img)) + 2 * {_P})", f"(old(Height(img)) + 2 * {_P})"     # `img` is reassigned in the body: old() = the parameter
 PAD_IMAGE = dict(
-    target=f"{T}/kd_random_crop.py::KDRandomCrop._pad_image", self=CROP_SELF, params={"img": IMAGE}, ghost=GEO_GHOST,
-    requires=["self.size[0] >= 1 and self.size[1] >= 1", "self.padding is None or val(self.padding) >= 0"],
-    ensures=["implies(self.pad_if_needed, Height(result) >= self.size[0] and Width(result) >= self.size[1])",
-             "Height(result) >= Height(img) and Width(result) >= Width(img)"],
+    target=f"{T}/kd_random_crop.py::KDRandomCrop._pad_image", self=CROP_SELF, params={"img": IMAGE}, ghost=GEO_GHOST, raises=(),
+    requires=["self.size[0] >= 1 and self.size[1] >= 1", "self.padding is None or val(self.padding) >= 0", "Width(img) >= 1 and Height(img) >= 1"],
+    ensures=[f"Width(result) == {_W1} + (2 * (self.size[1] - {_W1}) if (self.pad_if_needed and {_W1} < self.size[1]) else 0)",
+             f"Height(result) == {_H1} + (2 * (self.size[0] - {_H1}) if (self.pad_if_needed and {_H1} < self.size[0]) else 0)",
+             "implies(self.pad_if_needed, Height(result) >= self.size[0] and Width(result) >= self.size[1])"],
     inline=True,
 )
 
@@ -213,6 +218,6 @@ RANGE_DENORM = dict(
     ensures=["forall(lambda c: implies(0 <= c and c < Channels(x), ScaleOf(result, c) == 1 and ShiftOf(result, c) == 0))"],
 )
 
-CONTRACTS = [RANDOM_CROP_PARAMS, TWO_CROP_PARAMS, RANDOM_CROP_CALL, TWO_CROP_CALL, RRC_PARAMS, RRC_CALL, SEM_CROP_PARAMS, SEM_CROP_CALL,
+CONTRACTS = [RANDOM_CROP_PARAMS, TWO_CROP_PARAMS, PAD_IMAGE, RANDOM_CROP_CALL, TWO_CROP_CALL, RRC_PARAMS, RRC_CALL, SEM_CROP_PARAMS, SEM_CROP_CALL,
              SEM_PAD_CALL, SEM_FLIP, SEM_RESIZE, SEM_RANDOM_RESIZE, MULTI_CROP, ERASING, IMAGE_NORM, IMAGE_DENORM, RANGE_NORM, RANGE_DENORM]
-REGISTRY = CONTRACTS + [PAD_IMAGE]
+REGISTRY = CONTRACTS
